@@ -1,5 +1,7 @@
 package base
 
+import "strings"
+
 type DefinedClass struct {
 	frame string
 	class string
@@ -45,6 +47,25 @@ func IsClassDefined(frames []string, class string) bool {
 	_, ok := DefinedClassTable[key]
 
 	return ok
+}
+
+// FindDefinedClassFrame returns the innermost enclosing namespace of frame
+// (frame itself first) in which class has been defined, or "" (top level).
+func FindDefinedClassFrame(frame, class string) string {
+	for frame != "" {
+		if DefinedClassTable[DefinedClass{frame: frame, class: class}] {
+			return frame
+		}
+
+		idx := strings.LastIndex(frame, "::")
+		if idx < 0 {
+			break
+		}
+
+		frame = frame[:idx]
+	}
+
+	return ""
 }
 
 func SetDefinedClass(frame, class string) {
